@@ -572,6 +572,12 @@ func TestC16(t *testing.T) {
 		}
 	}
 	exhaustive := len(vs)
+	// the order matters: a request may leave something behind (a stored entry, a subscription, a lock) that a later request
+	// stumbles over.  The second half of the run repeats a seeded sample of the vectors in shuffled order.
+	again := make([]vector, 0, len(vs)/2)
+	for _, j := range rng.Perm(len(vs))[:len(vs)/2] {
+		again = append(again, vs[j])
+	}
 	// random vectors over the union of the alphabets
 	var pool []string
 	pool = append(pool, numbers...)
@@ -612,6 +618,14 @@ func TestC16(t *testing.T) {
 		}
 		b = append(b, '\r', '\n')
 		vs = append(vs, vector{raw: b})
+	}
+	for _, v := range again {
+		if strings.EqualFold(v.args[0], "dm.lock") && len(v.args) > 2 {
+			uniq++
+			v.args = append([]string{}, v.args...)
+			v.args[2] = fmt.Sprintf("lk%dr", uniq) // a lock vector needs a key nobody holds
+		}
+		vs = append(vs, v)
 	}
 	ch, err := startChild()
 	if err != nil {
